@@ -809,6 +809,16 @@ func (rl *Shell) keywordSwitch(increase bool) {
 	bpos, epos := rl.line.SelectWord(cpos)
 	epos++
 
+	// There might be no word under the cursor
+	// (empty line, cursor after the last character).
+	if epos > rl.line.Len() {
+		epos = rl.line.Len()
+	}
+
+	if bpos < 0 || bpos >= epos {
+		return
+	}
+
 	// Move the cursor backward if needed/possible
 	if bpos != 0 && ((*rl.line)[bpos-1] == '+' || (*rl.line)[bpos-1] == '-') {
 		bpos--
